@@ -7,7 +7,9 @@ from .common import info
 def run(ctx):
     RL.table_rules(ctx, "R11.a", "R11.b", "R11.c", "R11.d", "R11.g")
     RK.pipeline_order(ctx, "R11.f", edges={("lower", "set_pos"), ("lower", "set_stem"), ("normalize", "lower"),
-                                             ("normalize", "split")})
+                                             ("normalize", "split"), ("lower", "set_char_classes")})
+    # "prefixing separators never changes the hits": the finished flag and the slices of split/stripped words
+    RK.word_shape_rules(ctx, "R11.l")
     RK.normalize_first(ctx, "R11.f")
     RL.normalisation_loops(ctx, "R11.h")
     from . import r_rank as RR
